@@ -471,6 +471,10 @@ fn pa(code: u64) -> std::io::Result<PostAction> {
 }
 
 fn do_insert(w: &Rc<World>, h: u64, spec: &SrcSpec) {
+    if w.inner.borrow().disps.contains_key(&h) {
+        w.log(format!("1 1 {} 1", h)); // a handle id names one dispatcher object
+        return;
+    }
     let weak = Rc::downgrade(w);
     let guard = DropGuard { h, w: weak.clone() };
     let res: calloop::Result<RegistrationToken>;
